@@ -304,6 +304,37 @@ func (w *World) preloadWithDecodeFailure(st *Step, cv concVariant, r *Rng) *Viol
 		if err == nil {
 			return w.viol("conc.error", "BatchPreload whose decoder failed once returned no error")
 		}
+		if cv.FailDecode > 0 && len(ids) >= 11 {
+			// "the same ... errors as doing the work on one goroutine": the same kind of failure (the element decoder's
+			// first call fails) on the serial path of BatchPreload (fewer than 11 ids, no worker goroutines) must be
+			// reported in the same category as on the worker path
+			var errPar, errSer error
+			for _, serial := range []bool{false, true} {
+				st2 := w.newStorage(w.Ledger, w.Ctl)
+				w.Ctl.Reset()
+				w.Ctl.FailAt["decode"] = 1
+				w.Ctl.Persist = true
+				sub := ids
+				if serial {
+					sub = ids[:10]
+				}
+				e := st2.BatchPreload(sub, workers)
+				fired2 := w.Ctl.Fired["decode"] > 0
+				w.Ctl.Reset()
+				if !fired2 {
+					e = nil
+				}
+				if serial {
+					errSer = e
+				} else {
+					errPar = e
+				}
+			}
+			if errPar != nil && errSer != nil && errCategory(errPar) != errCategory(errSer) {
+				return w.viol("conc.error-category", "BatchPreload whose element decoder fails reports a %s error on the worker path (%d ids, %d workers) and a %s error on the serial path (10 ids): %v / %v", errCategory(errPar), len(ids), workers, errCategory(errSer), errPar, errSer)
+			}
+			w.Stats.Inc("conc.preload-error-category-compared")
+		}
 		w.Stats.Inc("conc.done-path")
 		// every cached slab equals its sequential decode
 		_, _, cached, _ := atree.VerifLayerIDs(w.Storage)
